@@ -87,17 +87,24 @@ class World:
         lazy = strategy == 'lazy'
         db = self.db = Database()
         rel, breq, casc = self.rel, self.breq, self.casc
+        setkw = {}
+        if strategy == 'lazy':
+            setkw['lazy'] = True
+        elif strategy == 'nplus1_0':
+            setkw['nplus1_threshold'] = 0
+        elif strategy == 'nplus1_none':
+            setkw['nplus1_threshold'] = None
 
         class A(db.Entity):
             _table_ = 'ta'
             id = PrimaryKey(int)
             v = Optional(int, lazy=lazy)
             if rel == 'o2m':
-                bs = Set('B', cascade_delete=casc) if casc != breq else Set('B')
+                bs = Set('B', cascade_delete=casc, **setkw) if casc != breq else Set('B', **setkw)
             elif rel == 'o2o':
                 b = Optional('B', cascade_delete=True) if casc else Optional('B')
             else:
-                bs = Set('B', table='tl', column='b_id')
+                bs = Set('B', table='tl', column='b_id', **setkw)
 
         class B(db.Entity):
             _table_ = 'tb'
@@ -106,7 +113,7 @@ class World:
             if rel in ('o2m', 'o2o'):
                 a = Required(A, column='a_id') if breq else Optional(A, column='a_id')
             else:
-                as_ = Set(A, column='a_id')
+                as_ = Set(A, column='a_id', **setkw)
 
         self.A, self.B = A, B
         db.bind('sqlite', path, create_db=True)
@@ -520,6 +527,8 @@ class Adapter:
             items = list(E.select(lambda x: True))
         else:
             items = E.select().order_by(E.id)[:]
+        if self.w.strategy == 'prefetch':
+            items = self.prefetched(e)
         ids = self.reg_all(e, items)
         if self.rng.randrange(2):
             n = count(x for x in E) if self.rng.randrange(2) else E.select().count()
@@ -527,14 +536,27 @@ class Adapter:
                 raise Mismatch('read', 'select over %s returns %d objects but count() says %d' % (e, len(ids), n))
         return ids
 
+    def prefetched(self, e):
+        """select all objects of e with prefetch() of its relationship (strategy 'prefetch')."""
+        w = self.w
+        if e == 'A':
+            rattr = w.A.b if w.rel == 'o2o' else w.A.bs
+            return w.A.select().prefetch(rattr)[:]
+        rattr = w.B.as_ if w.rel == 'm2m' else w.B.a
+        return w.B.select().prefetch(rattr)[:]
+
     # -- whole-session projection through the public API -------------------------------------------
     def project(self, cur, why):
         """Compare everything the program can observe with the spec's `cur` (C10 C11 C12 C13)."""
         w = self.w
         want = norm_state(cur)
         cat = 'failure' if why == 'after-failure' else 'read'
-        aobjs = {o.id: o for o in w.A.select()[:]}
-        bobjs = {o.id: o for o in w.B.select()[:]}
+        if w.strategy == 'prefetch':
+            aobjs = {o.id: o for o in self.prefetched('A')}
+            bobjs = {o.id: o for o in self.prefetched('B')}
+        else:
+            aobjs = {o.id: o for o in w.A.select()[:]}
+            bobjs = {o.id: o for o in w.B.select()[:]}
         for k, o in aobjs.items():
             self.reg('A', k, o)
         for k, o in bobjs.items():
